@@ -95,6 +95,8 @@ def extract_calls(cls, rep):
   for st in f.node.body:
     if isinstance(st, ast.Expr) and isinstance(st.value, ast.Constant):
       continue
+    if isinstance(st, ast.Pass):
+      continue
     if not (isinstance(st, ast.Expr) and isinstance(st.value, ast.Call) and isinstance(st.value.func, ast.Attribute)
             and isinstance(st.value.func.value, ast.Name) and st.value.func.value.id == selfn):
       raise Undecided('__post_init__ statement not understood: %s' % norm(st)[:80])
